@@ -44,9 +44,10 @@ func byteTerm(t *pt, idx int) *pt {
 
 // sPadSlice: buf[K-len(minbe(v)):] of a zeroed K-byte local array (the left-padding idiom)
 type sPadSlice struct {
-	id int
-	k  int
-	v  *pt
+	id  int
+	k   int
+	v   *pt
+	src *pt // the byte string whose length positions the window (nil: minbe(v))
 }
 
 // nilCompare: error values, objects and the random source compared with nil
@@ -196,7 +197,13 @@ func (d *protoDom) step(st *sState, in ssa.Instruction) bool {
 			if loT != nil && hiT == nil && hi < 0 {
 				// buf[K-len(minbe(v)):]
 				if v := padPattern(loT, len(arr.elems)); v != nil && allZero {
-					st.vals[x] = sPadSlice{p.id, len(arr.elems), v}
+					st.vals[x] = sPadSlice{p.id, len(arr.elems), v, nil}
+					return true
+				}
+				// buf[K-len(x):] for any byte string x of at most K bytes (longer: the slice expression panics)
+				if src := padPatternBytes(loT, len(arr.elems)); src != nil && allZero {
+					d.need(st, pOp("len", src), token.LEQ, pC(int64(len(arr.elems))), fmt.Sprintf("buf[%d-len(x):] needs len(x) <= %d", len(arr.elems), len(arr.elems)), e.p.InstrPos(x))
+					st.vals[x] = sPadSlice{p.id, len(arr.elems), pVal(src), src}
 					return true
 				}
 			}
@@ -211,6 +218,17 @@ func (d *protoDom) step(st *sState, in ssa.Instruction) bool {
 		}
 	case *ssa.Convert:
 		a := e.get(st, x.X)
+		if bc, ok := a.(byteCell); ok {
+			// a byte widened to an integer type: its value as an integer term
+			if w, _ := typeBits(x.Type()); w > 8 {
+				if bc.src.op == "lsb" {
+					st.vals[x] = pInt{&pt{op: "trunc", args: []*pt{&pt{op: "shr", args: []*pt{bc.src.args[0]}, n: big.NewInt(int64(8 * bc.idx))}}, k: 8}}
+				} else {
+					st.vals[x] = pInt{byteTerm(bc.src, bc.idx)}
+				}
+				return true
+			}
+		}
 		if p, ok := a.(pInt); ok {
 			w, signed := typeBits(x.Type())
 			if w == 8 && !signed {
@@ -285,6 +303,27 @@ func (d *protoDom) step(st *sState, in ssa.Instruction) bool {
 		}
 	case *ssa.BinOp:
 		a, b := e.get(st, x.X), e.get(st, x.Y)
+		if x.Op == token.EQL || x.Op == token.NEQ {
+			// the leading byte of a fixed-width encoding compared with zero: the value fits one byte less
+			bc, isB := a.(byteCell)
+			cv, isC := constOf(b)
+			if !isB {
+				bc, isB = b.(byteCell)
+				cv, isC = constOf(a)
+			}
+			if isB && isC {
+				if bc.idx == 0 && bc.src.op == "be" && bc.src.k > 1 && cv.Sign() == 0 {
+					op := token.LSS
+					if x.Op == token.NEQ {
+						op = token.GEQ
+					}
+					st.vals[x] = pCond{a: bc.src.args[0], op: op, b: widthBound(bc.src.k - 1)}
+					return true
+				}
+				st.vals[x] = pCond{a: byteTerm(bc.src, bc.idx), op: x.Op, b: &pt{op: "c", n: new(big.Int).Set(cv)}}
+				return true
+			}
+		}
 		if x.Op == token.SHR {
 			if p, ok := a.(pInt); ok {
 				if c, ok := constOf(b); ok {
@@ -317,6 +356,24 @@ func padPattern(t *pt, k int) *pt {
 	return nil
 }
 
+// padPatternBytes: term is K - len(x) for any byte string x; returns x
+func padPatternBytes(t *pt, k int) *pt {
+	if t.op != "add" {
+		return nil
+	}
+	c, rest := t.args[0], t.args[1]
+	if c.op != "c" {
+		c, rest = rest, c
+	}
+	if c.op != "c" || !c.n.IsInt64() || int(c.n.Int64()) != k {
+		return nil
+	}
+	if rest.op == "mul" && rest.args[0].op == "c" && rest.args[0].n.Cmp(big.NewInt(-1)) == 0 && rest.args[1].op == "len" {
+		return rest.args[1].args[0]
+	}
+	return nil
+}
+
 // builtin functions on protocol values
 func (d *protoDom) builtin(st *sState, name string, call *ssa.Call, args []sVal) (sVal, bool) {
 	e := d.e
@@ -343,7 +400,7 @@ func (d *protoDom) builtin(st *sState, name string, call *ssa.Call, args []sVal)
 		}
 		switch dst := args[0].(type) {
 		case sPadSlice:
-			if src.op == "minbe" && src.args[0].String() == dst.v.String() {
+			if (src.op == "minbe" && src.args[0].String() == dst.v.String()) || (dst.src != nil && src.String() == dst.src.String()) {
 				arr := st.heap[dst.id].(*hArray)
 				d.need(st, dst.v, token.LSS, widthBound(dst.k), fmt.Sprintf("left-padding into %d bytes needs the value to fit", dst.k), pos)
 				d.writeBytes(st, arr, 0, pBe(dst.v, dst.k), dst.k)
@@ -471,6 +528,8 @@ func (d *protoDom) assumeCond(st *sState, c pCond, outcome bool) {
 	if !outcome {
 		op = negOp[op]
 	}
+	// values that the path so far lets simplify (truncations that cannot truncate, low bytes that carry the whole value)
+	a, b = d.normInt(st, a), d.normInt(st, b)
 	st.addFact(pFact{a: a, op: op, b: b})
 	// needExpand(array, asked) is 0 exactly when the spare capacity suffices (NEED-EXPAND rule of the assembler side)
 	for _, pr := range [][2]*pt{{a, b}, {b, a}} {
@@ -522,10 +581,25 @@ func (d *protoDom) normInt(st *sState, t *pt) *pt {
 	}
 	if t.op == "trunc" {
 		inner := d.normInt(st, t.args[0])
-		if proveP(st.pfacts, inner, token.GEQ, pC(0)) && proveP(st.pfacts, inner, token.LSS, &pt{op: "c", n: new(big.Int).Lsh(big.NewInt(1), uint(t.k))}) {
+		bound := &pt{op: "c", n: new(big.Int).Lsh(big.NewInt(1), uint(t.k))}
+		if t.k%8 == 0 {
+			bound = widthBound(t.k / 8)
+		}
+		if proveP(st.pfacts, inner, token.GEQ, pC(0)) && proveP(st.pfacts, inner, token.LSS, bound) {
 			return inner
 		}
 		return &pt{op: "trunc", args: []*pt{inner}, k: t.k}
+	}
+	if t.op == "val" && len(t.args) == 1 && t.args[0].op == "sub" && t.args[0].args[0].op == "be" {
+		// the low bytes of a fixed-width encoding carry the whole value when it fits them
+		sb := t.args[0]
+		be := sb.args[0]
+		if int(sb.n.Int64()) == be.k && sb.k > 0 {
+			inner := d.normInt(st, be.args[0])
+			if proveP(st.pfacts, inner, token.GEQ, pC(0)) && proveP(st.pfacts, inner, token.LSS, widthBound(be.k-sb.k)) {
+				return inner
+			}
+		}
 	}
 	if len(t.args) == 0 {
 		return t
